@@ -45,6 +45,8 @@ type Store struct {
 	// index as separate steps, and these must not interleave for one key.
 	writeLks [256]sync.Mutex
 
+	flushLk sync.Mutex
+
 	rateLk      sync.RWMutex
 	flushRate   float64 // rate at which data can be flushed
 	burstRate   types.Work
@@ -666,6 +668,11 @@ func (s *Store) outstandingWork() bool {
 // Flush writes outstanding work and buffered data to the primary, index, and
 // freelist files. It then syncs these files to permanent storage.
 func (s *Store) Flush() error {
+	// Only one flush at a time. A flush that finds no outstanding work must
+	// not return while another flush is still writing that work.
+	s.flushLk.Lock()
+	defer s.flushLk.Unlock()
+
 	lastFlush := time.Now()
 
 	s.rateLk.Lock()
